@@ -209,7 +209,11 @@ def model_case(draw):
                      ('HH', 'AlphaFin')]:
         if draw(gen.chance(1, 4)):
             ics.append([sec, var, draw(st.sampled_from([5.0, 0.0, -2.5, 10, 0.125, '3.5', 80, 0]))])
-    return {'T': T, 'values': vals, 'form': form, 'ics': ics, 'via': draw(st.sampled_from(['model', 'sector']))}
+    earlier = None
+    if draw(gen.chance(1, 3)):
+        earlier = [draw(st.integers(0, 400)) / 10.0 for _ in range(T + 1 + draw(st.integers(0, 2)))]
+    return {'T': T, 'values': vals, 'form': form, 'ics': ics, 'via': draw(st.sampled_from(['model', 'sector'])),
+            'earlier': earlier, 'earlier_ics': draw(st.booleans())}
 
 
 def run_model(spec):
@@ -228,6 +232,12 @@ def run_model(spec):
         value = repr(list(vals))
     else:
         value = repr(list(vals[:1])) + ' + ' + repr(list(vals[1:]))
+    if spec.get('earlier') is not None:
+        # a default path set first (e.g. by a model-building helper) and then overridden: the later definition counts
+        gov.SetExogenous('DEM_GOOD', list(spec['earlier']))
+        if spec.get('earlier_ics'):
+            for sec, var, v in spec['ics']:
+                mod.AddInitialCondition(sec, var, float(v) + 1.5)
     if spec['via'] == 'sector':
         gov.SetExogenous('DEM_GOOD', value)
     else:
@@ -239,7 +249,7 @@ def run_model(spec):
             mod.AddInitialCondition(sec, var, v)
     mod.MaxTime = T
     short = len(vals) < T + 1
-    labels = ['form:' + form, 'short' if short else 'enough']
+    labels = ['form:' + form, 'short' if short else 'enough'] + (['path-overridden'] if spec.get('earlier') is not None else [])
     try:
         mod.main()
         outcome, err = 'ok', None
